@@ -26,7 +26,17 @@ def import_sysloss():
     import sysloss.diagram as D
 
     assert os.path.realpath(S.__file__).startswith(os.path.realpath(p)), (S.__file__, p)
+    global PRISTINE_CONF
+    if PRISTINE_CONF is None:
+        import copy
+
+        # the documented default diagram configuration, read once through the
+        # public API before any session has run in this interpreter
+        PRISTINE_CONF = copy.deepcopy(D.get_conf())
     return S, C, D
+
+
+PRISTINE_CONF = None
 
 
 # --------------------------------------------------------------------------
@@ -313,6 +323,26 @@ class World:
             else:
                 setattr(obj, name, old)
         self._saved = []
+        # hygiene between sessions of one worker: library-level defaults that a
+        # (mutated) library let a session pollute must not leak into the next
+        try:
+            import copy
+            from .spec import LIMITS_DEFAULT as DOC_LIMITS
+
+            if self.C.LIMITS_DEFAULT != DOC_LIMITS:
+                self.C.LIMITS_DEFAULT.clear()
+                self.C.LIMITS_DEFAULT.update(copy.deepcopy(DOC_LIMITS))
+        except Exception:
+            pass
+        try:
+            import copy
+
+            d = getattr(self.D, "_DEF_CONF", None)
+            if isinstance(d, dict) and d != PRISTINE_CONF:
+                d.clear()
+                d.update(copy.deepcopy(PRISTINE_CONF))
+        except Exception:
+            pass
         try:
             import matplotlib.pyplot as plt
 
